@@ -271,7 +271,7 @@ fn name_lines(log: Option<prqlc::debug::DebugLog>) -> Vec<Value> {
         match serde_json::to_value(&log) { Err(e) => out.push(json!(format!("SERERR {e}"))), Ok(_) => {} }
         if let Ok(Value::Object(m)) = serde_json::to_value(&log) {
             if let Some(Value::Array(es)) = m.get("entries") {
-                out.push(json!(format!("N {} {}", es.len(), es.iter().take(40).map(|e| e.to_string().chars().take(60).collect::<String>()).collect::<Vec<_>>().join(" ## "))));
+                out.push(json!(format!("N {} {:?}", es.len(), es.iter().filter_map(|e| e.get("kind").and_then(|k| k.get("Message")).and_then(|v| v.get("text")).and_then(|t| t.as_str()).map(|t| t.chars().take(14).collect::<String>())).filter(|t| t.starts_with("verif")).collect::<Vec<_>>())));
                 for e in es {
                     if let Some(t) = e.get("kind").and_then(|k| k.get("Message")).and_then(|v| v.get("text")).and_then(|t| t.as_str()) {
                         if t.starts_with("verif:namegen ") || t.starts_with("verif:pq-names ") {
